@@ -49,6 +49,7 @@ func (r *Ref) expandNodes(nodes []*ymodel.Node, s Scope, c ectx, into map[string
 					real = x.Children[x.Name]
 				}
 				real.IfFeatures = append(real.IfFeatures[:len(real.IfFeatures):len(real.IfFeatures)], n.IfFeatures...)
+				real.AddStmts(n.Extras)
 				if into[k] != nil {
 					r.problem("duplicate node %s", k)
 					continue
@@ -85,6 +86,7 @@ func parseU(s string, def uint64) uint64 {
 
 func (r *Ref) expandNode(n *ymodel.Node, s Scope, c ectx) *XNode {
 	x := &XNode{Name: n.Name, Kind: n.Kind, NS: c.ns, Config: n.Config, Mandatory: n.Mandatory, CopySteps: c.steps, Src: s.Mod.Name, ViaUses: c.viaUses, ViaAug: c.viaAug, IfFeatures: append([]string(nil), n.IfFeatures...)}
+	x.AddStmts(n.Extras)
 	inner := s.Push(&n.Body)
 	switch n.Kind {
 	case ymodel.KLeaf, ymodel.KLeafList:
@@ -290,6 +292,7 @@ func (r *Ref) graftOne(trees map[string]*Tree, p pendingAug) bool {
 			real = real.Children[real.Name]
 		}
 		real.IfFeatures = append(real.IfFeatures[:len(real.IfFeatures):len(real.IfFeatures)], p.aug.IfFeatures...)
+		real.AddStmts(p.aug.Extras)
 		target.Children[k] = add[k]
 	}
 	return true
